@@ -155,6 +155,11 @@ class Body(object):
                     out = [t["t"]]
             seen = []
             for o in out:
+                # an `unreachable` block is not a successor: rustc put it there for impossible discriminants
+                ob = self.blocks[o]
+                if k == "switch" and ob["term"]["k"] == "unreachable" and not any(
+                        s_["k"] == "assign" for s_ in ob["stmts"]):
+                    continue
                 if o not in seen:
                     seen.append(o)
             succ[i] = seen
